@@ -145,7 +145,7 @@ fn small_tau_program(rng: &mut Rng) -> asp::Program {
         cfg.max_body = 2;
         cfg.max_arity = 2;
         cfg.depth = 1 + rng.below(2);
-        cfg.huge = if rng.chance(10) { 8 } else { 0 };
+        cfg.huge = if rng.chance(25) { 12 } else { 0 };
     }
     ts::program(rng, &cfg)
 }
